@@ -347,6 +347,35 @@ def rule_i(repo, chk):
     chk.ob('C04.i', ok, inner, 'doctest completions come from a nested Completion.complete() (same guarantees)')
 
 
+def rule_j(repo, chk):
+    chk.clause('C04.j', 'instance attributes: the self-attribute filter keeps every definition `<receiver>.x = ...` between the class\'s start and end '
+                        'whose receiver resolves to the first parameter of a function of this class (decided by goto alone: closures nested in '
+                        'methods count), and every such name of the class body is offered')
+    from ..summaries import check_summary
+    INST = 'jedi.inference.value.instance'
+    check_summary(repo, chk, 'C04.j', INST, 'SelfAttributeFilter._is_in_right_scope')
+    f = repo.find(INST, 'SelfAttributeFilter._filter_self_names')
+    lp = [n for n in own_nodes(f) if isinstance(n, ast.For) and norm(n.iter) == 'names']
+    chk.ob('C04.j', len(lp) == 1 and not loop_escapes(lp[0], (ast.Break, ast.Return)), f, 'every candidate name is looked at (no break/return in the loop over the names)')
+    ys = [n for n in own_nodes(f) if isinstance(n, ast.Yield)]
+    chk.ob('C04.j', len(ys) == 1 and norm(ys[0].value) == (norm(lp[0].target) if lp else 'name'), f, 'what is offered is the candidate itself')
+    if ys:
+        def acc(e, pol):
+            t = norm(e)
+            return pol and t in ('name.is_definition()', 'self._access_possible(name)', "trailer.type == 'trailer'", 'len(trailer.parent.children) == 2',
+                                 "trailer.children[0] == '.'", 'self._is_in_right_scope(trailer.parent.children[0], name)')
+        from ..lib import dominating_facts
+        facts = {norm(e) for e, pol in dominating_facts(f, ys[0]) if pol}
+        want = {'name.is_definition()', 'self._access_possible(name)', "trailer.type == 'trailer'", 'len(trailer.parent.children) == 2',
+                "trailer.children[0] == '.'", 'self._is_in_right_scope(trailer.parent.children[0], name)'}
+        extra = sorted(facts - want)
+        chk.ob('C04.j', not extra, ys[0], 'a candidate is dropped only for the six listed reasons (shape `<name>.x`, a definition, accessible, receiver is self)',
+               'further conditions in front of the yield: %s' % extra)
+    g = repo.find(INST, 'SelfAttributeFilter._filter')
+    ok = any(isinstance(r, ast.Return) and norm(r.value) == 'self._filter_self_names(names)' for r in stmts_in(g, ast.Return))
+    chk.ob('C04.j', ok, g, '_filter hands the names inside the class to _filter_self_names')
+
+
 def _parents(node, stop):
     p = getattr(node, '_parent', None)
     while p is not None and p is not stop:
@@ -359,4 +388,4 @@ def describe(chk):
                   'case-variant handling beyond the lower-casing of both sides')
 
 
-RULES = [('C04.a', rule_a), ('C04.b', rule_b), ('C04.c', rule_c), ('C04.d', rule_d), ('C04.e', rule_e), ('C04.f', rule_f), ('C04.g', rule_g), ('C04.h', rule_h), ('C04.i', rule_i)]
+RULES = [('C04.a', rule_a), ('C04.b', rule_b), ('C04.c', rule_c), ('C04.d', rule_d), ('C04.e', rule_e), ('C04.f', rule_f), ('C04.g', rule_g), ('C04.h', rule_h), ('C04.i', rule_i), ('C04.j', rule_j)]
